@@ -110,7 +110,7 @@ def base_env(target):
 
 
 CHECK_RE = re.compile(
-    r"^Check (\d+): (\S+)\n\s+- Status: (\w+)\n\s+- Description: \"(.*?)\"\n\s+- Location: (.*?)$",
+    r"^Check (\d+): ([^\n]+)\n\s+- Status: (\w+)\n\s+- Description: \"(.*?)\"\n\s+- Location: (.*?)$",
     re.M | re.S)
 
 
@@ -379,6 +379,26 @@ class Check:
             list(ex.map(self.run_inst, order))
         known = self.load_known()
         violations, knowns, inconclusive = [], [], []
+        # failing instances are replayed once per distinct (harness family, set of failing labels): the
+        # representative (smallest formula) is replayed natively, instances with the same signature inherit its verdict
+        groups = {}
+        for inst in self.insts:
+            r = inst.result
+            if r["verdict"] == "fail" and not (r["unsupported"] and len(r["unsupported"]) == len(r["failed"])):
+                sig = (inst.family, tuple(sorted(set(e["desc"] for e in r["failed"]))))
+                groups.setdefault(sig, []).append(inst)
+        reps = []
+        for sig, members in groups.items():
+            members.sort(key=lambda i: (i.result["sat_vars"] or 1 << 60, i.name))
+            reps.append(members[0])
+        if reps:
+            with cf.ThreadPoolExecutor(max_workers=min(3, len(reps))) as ex:
+                list(ex.map(self.replay, reps))
+        for sig, members in groups.items():
+            rep = members[0].result.get("replay") or {"reproduced": False, "why": "replay failed"}
+            for m_ in members[1:]:
+                m_.result["replay"] = {"reproduced": rep.get("reproduced", False), "by_representative": members[0].name,
+                                       "path": rep.get("path"), "why": rep.get("why")}
         for inst in self.insts:
             r = inst.result
             v = r["verdict"]
@@ -395,8 +415,8 @@ class Check:
             if r["unsupported"] and len(r["unsupported"]) == len(r["failed"]):
                 inconclusive.append((inst, "unsupported construct reached: " + r["unsupported"][0]["desc"][:120]))
                 continue
-            rep = self.replay(inst)
-            if not rep["reproduced"]:
+            rep = r.get("replay") or {"reproduced": False}
+            if not rep.get("reproduced"):
                 why = "counterexample did not reproduce natively"
                 if only_unwind:
                     why = "unwinding bound too small for this code (no native failure)"
